@@ -90,6 +90,9 @@ def inject_static_fault(rng, text):
               b' + {k: 1, k: 2}.k', b' + std.length(x=1, 2)', b' + (import ("a"))', b' + (import |||\n a\n|||)']
     pos = [i for i in range(len(text)) if text[i:i + 1] == b';']
     f = rng.choice(faults)
+    if rng.random() < 0.3:      # a fault inside a faulty construct: which error comes first is part of the answer
+        f = rng.choice([b' + std.length(x=1, zz)', b' + (local u = zz, u = 2; u)', b' + {k: self.q + zz, k: 2}.k', b' + (function(p, p = zz) 1)(1)',
+                        b' + {[zz]: 1, k: 1, k: 2}', b' + (import (zz))', b' + [v for v in [w] for w in [zz]]', b' + std.length(x=$, self)'])
     if pos and rng.random() < 0.7:
         p = rng.choice(pos)
         return text[:p] + f + text[p:]
@@ -212,6 +215,43 @@ def spans_of(r):
     return out
 
 
+TOKSPAN_RE = re.compile(r'\((\w+)(?: [^() ]+)* ([0-9a-f]+):([0-9a-f]+)\)')
+
+
+def tokens_ill_formed(ri, n):
+    """oracle on the implementation alone (what C14 proves of the model and the parser assumes): the token
+    dump has ordered, non-overlapping spans inside the input, no trivia, and exactly one EOF, last, at (len,len)"""
+    f = ri.split('\t')
+    c = klass(ri)
+    txt = None
+    if c == 'OK' and len(f) > 1:
+        txt = f[1]
+    else:
+        for x in f:
+            if x.startswith('TOK='):
+                txt = x[4:]
+    if txt is None:
+        return None
+    toks = [(m.group(1), int(m.group(2), 16), int(m.group(3), 16)) for m in TOKSPAN_RE.finditer(txt)]
+    if not toks:
+        return 'empty token list'
+    prev = 0
+    for i, (k, a, b) in enumerate(toks):
+        last = i == len(toks) - 1
+        if k in ('WS', 'Comment', 'Whitespace'):
+            return 'trivia token in the parser input'
+        if (k == 'EOF') != last:
+            return 'eof-position EOF token not exactly last'
+        if not (prev <= a <= b <= n):
+            return 'overlap token %d span %x:%x after %x (len %x)' % (i, a, b, prev, n)
+        if not last and a == b:
+            return 'empty-token token %d has an empty span' % i
+        prev = b
+    if toks[-1][1:] != (n, n):
+        return 'eof-span EOF not at (len,len)'
+    return None
+
+
 def detail_key(ri, rm):
     """which detail differs, given equal classes"""
     fi, fm = ri.split('\t'), rm.split('\t')
@@ -254,8 +294,11 @@ def compare_one(run, kind, src, ri, rm):
     ci = klass(ri)
     if ci in ('PANIC', 'CRASH', 'TIMEOUT', 'NOOUTPUT'):
         f = ri.split('\t')
-        what = f[1][:80] if len(f) > 1 else ''
-        loc = re.sub(r'[^A-Za-z0-9_.:]+', '-', what)[:60]
+        what = f[1] if len(f) > 1 else ''
+        m = re.search(r'^(.*?) @ (\S+?):(\d+)$', what)
+        if m:      # panic message @ file:line  ->  file basename + message (no paths, no line numbers)
+            what = os.path.basename(m.group(2)) + ':' + m.group(1)
+        loc = re.sub(r'[^A-Za-z0-9_.:]+', '-', what)[:70]
         run.violation('front:crash:%s:%s' % (ci, loc), 'load_source on %r -> %s (model: %s)' % (src[:80], ri[:160], rm[:80]), replay)
         return False
     cm = klass(rm)
@@ -267,6 +310,10 @@ def compare_one(run, kind, src, ri, rm):
     bad = [(a, b) for (a, b) in spans_of(ri) if not (a <= b <= len(src))] if ci in ('LEX', 'PARSE', 'ANALYZE') else []
     if bad:
         run.violation('front:span-outside-input:%s' % ci, 'error span %r outside the %d-byte input %r' % (bad, len(src), src[:80]), replay)
+        return False
+    why = tokens_ill_formed(ri, len(src))
+    if why:
+        run.violation('front:tokens-ill-formed:%s' % why.split(' ')[0], 'token stream of the lexer is not well formed (%s) on %r' % (why, src[:80]), replay)
         return False
     if ci != cm:
         run.violation('front:verdict:%s-vs-%s' % (ci, cm),
